@@ -225,6 +225,11 @@ def gen_params(rng, name, names):
     if name == 'aim':
         p.update(workload=pairs + ([tuple(names[:3])] if len(names) >= 3 and rng.random() < 0.3 else []), rounds=rng.choice([None, None, 4 * len(names), 30]),
                  explicit_prng=rng.random() < 0.3, max_model_size=rng.choice([80, 'grow', 'grow']))
+        if len(names) >= 3 and rng.random() < 0.35:
+            # a workload whose downward closure does not touch every attribute: the untouched attributes must still be in the output
+            keep = names[:-1] if rng.random() < 0.5 else names[1:]
+            p['workload'] = [tuple(c) for c in itertools.combinations(keep, 2)]
+            p['partial_workload'] = True
     elif name == 'mwem':
         p.update(workload=pairs + ([pairs[0]] if rng.random() < 0.2 else []), rounds=rng.choice([1, 2, 3]), noise=rng.choice(['gaussian', 'gaussian', 'laplace', 'Laplace']), bounded=rng.random() < 0.5)
     elif name == 'adagrid':
